@@ -98,6 +98,33 @@ def run_step(rep, prop, forms=None, harness_timeout=900, skip_groups=(), r=None)
                 o.detail = "CBMC: FAILURE of check '%s' at %s:%d in %s (harness %s)" % (fc["desc"], fc["file"], fc["line"], fc["func"], g)
             else:
                 o.status = DISCHARGED
+    # the verifier ran into its limit on some group (typically after a source change): a bounded native comparison
+    # of the same contract on the real code keeps a violation visible (labelled bounded; a clean result here
+    # does NOT discharge anything - the obligations stay undetermined and the check stays inconclusive)
+    import native
+    timed_out = [g for g in groups if (r["harness"].get(g) is None or r["harness"][g]["status"] not in ("SUCCESSFUL", "FAILED"))]
+    for g in timed_out[:6]:
+        for f in reg["groups"].get(g, []):
+            if f not in forms:
+                continue
+            try:
+                w = native.find_any(f)
+            except Exception as e:
+                w = None
+            if not w:
+                continue
+            clause = w.get("clause", "")
+            home = reg["forms"][f]["prop"]
+            cands = {"ea": "C08/%s/ea" % f, "cycle_mix": "C20/%s/cycle_mix" % f, "err_on_unmapped": "C15/%s/err_on_unmapped" % f}
+            oid = cands.get(clause, "%s/%s/%s" % (home, f, clause))
+            if clause == "regs" and prop == "C08":
+                oid = "C08/%s/address_registers" % f
+            if oid in rep.obls:
+                o = rep.obls[oid]
+                o.status = FAILED
+                o.backend = "native comparison with the contract (bounded) after verifier limit"
+                o.witness = w
+                o.detail = "harness %s hit the verifier limit; the same clause fails natively on the real code: %s" % (g, w.get("detail", "")[:300])
     # harness self checks + vacuity
     for g in groups:
         h = r["harness"].get(g)
